@@ -134,14 +134,11 @@ func (c *ChangesTable) Open() (sqlite.VirtualCursor, error) {
 		return nil, fmt.Errorf("to: %w", err)
 	}
 
-	dc, err := to.Root.StartDiff(ctx, from.Root)
-	if err != nil {
-		return nil, toSqlite(err)
-	}
 	return &ChangesCursor{
-		module:     c.module,
-		t:          c.table,
-		diffCursor: dc,
+		module: c.module,
+		t:      c.table,
+		from:   from,
+		to:     to,
 	}, nil
 }
 
@@ -158,6 +155,7 @@ type ChangesCursor struct {
 	t          *s3db.VirtualTable
 	currentKey *s3db.Key
 	currentRow *v1proto.Row
+	from, to   *s3db.KV
 	diffCursor *kv.DiffCursor
 	eof        bool
 }
@@ -198,6 +196,13 @@ func (c *ChangesCursor) Column(ctx *sqlite.VirtualTableContext, i int) error {
 }
 
 func (c *ChangesCursor) Filter(_ int, idxStr string, values ...sqlite.Value) error {
+	// SQLite filters one cursor again for every row of an outer loop (a join,
+	// a correlated subquery): each scan starts from the beginning.
+	dc, err := c.to.Root.StartDiff(c.module.sc.ctx, c.from.Root)
+	if err != nil {
+		return toSqlite(err)
+	}
+	c.diffCursor, c.eof = dc, false
 	return toSqlite(c.Next())
 }
 func (c *ChangesCursor) Rowid() (int64, error) {
